@@ -3,7 +3,7 @@
    contour/mask statement, rotation invariance and convergence to analytic
    volumes are oracle runs on the real code, see harness/c18.py). *)
 From Coq Require Import ZArith QArith List Bool.
-From Verif Require Import Model.C18 Proofs.C18 Proofs.C18_img.
+From Verif Require Import Model.C18 Proofs.C18 Proofs.C18_img Proofs.C18_sim.
 Import ListNotations.
 Open Scope Z_scope.
 
@@ -71,11 +71,12 @@ Theorem C18_inert_ratio_translation_invariant :
 Proof. exact inert_ratio_translation_invariant. Qed.
 Print Assumptions C18_inert_ratio_translation_invariant.
 
-(* ... becomes its reciprocal when the axes are exchanged ... *)
+(* ... becomes its reciprocal when the axes are exchanged (both central
+   moments non-zero: numpy divides, Q's 1/0 = 0 is not used) ... *)
 Theorem C18_inert_ratio_axis_swap_reciprocal :
-  forall c : list pt,
+  forall c : list pt, N20 c <> 0 -> N02 c <> 0 ->
     oq_eq (inert_ratio_sq (swap_xy c)) (oq_inv (inert_ratio_sq c)).
-Proof. exact inert_ratio_axis_swap_reciprocal. Qed.
+Proof. exact inert_ratio_axis_swap_reciprocal_guarded. Qed.
 Print Assumptions C18_inert_ratio_axis_swap_reciprocal.
 
 Theorem C18_inert_ratio_axis_swap_product_one :
@@ -336,3 +337,98 @@ Theorem C18_boundary_pixels_are_emitted_vertical :
       (round_pt (fst s) = hp \/ round_pt (snd s) = hp).
 Proof. exact boundary_pair_emitted_v. Qed.
 Print Assumptions C18_boundary_pixels_are_emitted_vertical.
+
+(* ---- principal inertia ratio ------------------------------------------- *)
+(* Trace T and discriminant D of the second-moment matrix of a contour; the
+   principal inertia ratio squared is (T + sqrt D)/(T - sqrt D).  Under the
+   rotation by the angle of (p, q) combined with the scaling sqrt(p^2+q^2)
+   (integer p, q: a dense set of angles) T and sqrt D pick up the same
+   factor ... *)
+Theorem C18_principal_invariants_rotation_scaling :
+  forall (p q : Z) (c : list pt),
+    a00 (simmap p q c) = (p * p + q * q) * a00 c /\
+    T_N (simmap p q c)
+    = (p * p + q * q) * (p * p + q * q) * (p * p + q * q) * T_N c /\
+    Disc_N (simmap p q c)
+    = (p * p + q * q) * (p * p + q * q) * (p * p + q * q)
+      * (p * p + q * q) * (p * p + q * q) * (p * p + q * q) * Disc_N c.
+Proof. exact invariants_sim. Qed.
+Print Assumptions C18_principal_invariants_rotation_scaling.
+
+(* ... so the principal inertia ratio is rotation (and scale) invariant:
+   for every square root h of D, K^3 h is a square root of the rotated D and
+   the ratio is the same. *)
+Theorem C18_principal_ratio_rotation_invariant :
+  forall (p q : Z) (c : list pt) (h : Q),
+    p * p + q * q <> 0 ->
+    (h * h == zq (Disc_N c))%Q -> ~ (zq (T_N c) - h == 0)%Q ->
+    let K3 := zq ((p * p + q * q) * (p * p + q * q) * (p * p + q * q)) in
+    ((K3 * h) * (K3 * h) == zq (Disc_N (simmap p q c)))%Q /\
+    (prnc_sq (zq (T_N (simmap p q c))) (K3 * h)
+     == prnc_sq (zq (T_N c)) h)%Q.
+Proof. exact prnc_similarity_invariant. Qed.
+Print Assumptions C18_principal_ratio_rotation_invariant.
+
+(* Reflection and translation leave T and D alone. *)
+Theorem C18_principal_invariants_reflection_translation :
+  forall (c : list pt) (tx ty : Z),
+    T_N (reflect_x c) = T_N c /\ Disc_N (reflect_x c) = Disc_N c /\
+    T_N (translate tx ty c) = T_N c /\ Disc_N (translate tx ty c) = Disc_N c.
+Proof. exact prnc_reflection_translation_invariant. Qed.
+Print Assumptions C18_principal_invariants_reflection_translation.
+
+(* The discriminant is a sum of squares (real principal axes), and for a
+   positive definite second-moment matrix (0 <= sqrt D < T) the principal
+   inertia ratio is at least one. *)
+Theorem C18_principal_discriminant_nonneg :
+  forall c : list pt, 0 <= Disc_N c.
+Proof. exact Disc_nonneg. Qed.
+Print Assumptions C18_principal_discriminant_nonneg.
+
+Theorem C18_principal_ratio_at_least_one :
+  forall T h : Q, (0 <= h)%Q -> (h < T)%Q -> (1 <= prnc_sq T h)%Q.
+Proof. exact prnc_sq_ge_1. Qed.
+Print Assumptions C18_principal_ratio_at_least_one.
+
+(* ---- get_volume and the pixel size ------------------------------------- *)
+Theorem C18_get_volume_pixel_size_cubic :
+  forall (k cx cy : Z) (c : list pt) (pix s : Q),
+    oq_eq (get_volume_pi k cx cy c (s * pix))
+          (oq_scale (s * s * s) (get_volume_pi k cx cy c pix)).
+Proof. exact get_volume_pix_cubic. Qed.
+Print Assumptions C18_get_volume_pixel_size_cubic.
+
+(* ---- brightness batches: offsets as none / scalar / one per event ------- *)
+Theorem C18_batch_event_uses_its_own_offset :
+  forall (f : list bool -> list Z -> list Z -> option Q -> option (Q * Q))
+         (evs : list bevent) (off : offspec) (i : nat) (e : bevent)
+         (o : option Q),
+    nth_error evs i = Some e -> off_at off (length evs) i = Some o ->
+    exists r, batch f evs off = BrOk r /\
+              nth_error r i = Some (f (bmask e) (bimg e) (bbg e) o).
+Proof. exact batch_per_event. Qed.
+Print Assumptions C18_batch_event_uses_its_own_offset.
+
+Theorem C18_bright_bc_per_event_offsets_one_to_one :
+  forall (evs : list bevent) (l : list Q) (i : nat) (e : bevent)
+         (r r0 : list (option (Q * Q))) (a0 v0 : Q),
+    length l = length evs -> nth_error evs i = Some e ->
+    get_bright_bc_batch evs (OffSeq l) = BrOk r ->
+    get_bright_bc_batch evs OffNone = BrOk r0 ->
+    nth_error r0 i = Some (Some (a0, v0)) ->
+    exists a v, nth_error r i = Some (Some (a, v)) /\
+                (a == a0 - nth i l 0)%Q /\ (v == v0)%Q.
+Proof. exact bright_bc_batch_offsets. Qed.
+Print Assumptions C18_bright_bc_per_event_offsets_one_to_one.
+
+Theorem C18_bright_perc_per_event_offsets_one_to_one :
+  forall (evs : list bevent) (l : list Q) (i : nat) (e : bevent)
+         (r r0 : list (option (Q * Q))) (a0 v0 : Q),
+    length l = length evs -> nth_error evs i = Some e ->
+    get_bright_perc_batch evs (OffSeq l) = BrOk r ->
+    get_bright_perc_batch evs OffNone = BrOk r0 ->
+    nth_error r0 i = Some (Some (a0, v0)) ->
+    exists a v, nth_error r i = Some (Some (a, v)) /\
+                (a == a0 - nth i l 0)%Q /\ (v == v0 - nth i l 0)%Q.
+Proof. exact bright_perc_batch_offsets. Qed.
+Print Assumptions C18_bright_perc_per_event_offsets_one_to_one.
